@@ -69,6 +69,13 @@ class DuckSeekableSource:
         return data
 
     def seek(self, where, whence=0):
+        # (a boundary like the reads: a planned fault makes the stream's own seek fail - EIO from a flaky file system, a wrapper that
+        # refuses to go back)
+        d = self.w.director
+        key = d.occurrence(f'{self.label}/src:seek')
+        f = d.point(key, 'before')
+        if f is not None:
+            raise_for(f, d, key, 'before', oserr=True)
         r = self._b.seek(where, whence)
         self.w.log.add('src.seek', label=self.label, where=where, whence=whence, pos=self._b.tell())
         return r
@@ -453,6 +460,12 @@ class _RFile:
         return data
 
     def seek(self, *a):
+        # (the source FILE's own seek as a boundary: EIO from a flaky file system)
+        d = self._osu.w.director
+        key = d.occurrence(f'{self.label}/fs:seek')
+        f = d.point(key, 'before')
+        if f is not None:
+            raise_for(f, d, key, 'before', oserr=True)
         return self._f.seek(*a)
 
     def tell(self):
